@@ -3,16 +3,20 @@ import gen_lg as gl
 
 TZ_BY_OFFSET = True
 CLAIM = ("Proved in Coq for the model (Formats/): a record that is handed to n outputs puts exactly format(record) ++ line ending into "
-         "each of them, once (C20_frame); each text format is a header that does not depend on the message followed by the message "
-         "verbatim, for arbitrary bytes (C20_text); serde_json's string escaping can be undone for every byte string and never produces "
+         "each of them, once (C20_frame); each text format is a header that depends neither on the message nor on the key-value pairs, "
+         "followed by the pairs as {k=v, ..} in source order and the message verbatim, for arbitrary bytes (C20_text); the Debug rendering "
+         "of a pair's value can be undone and contains no raw control byte (C20_kv_text_roundtrip, C20_debug_str_inj, "
+         "C20_debug_str_printable); the JSON format's kv object is the map sorted by key in which the last pair of a key wins "
+         "(C20_kv_map_sorted, C20_kv_map_lookup) and its keys and values decode to what went in (C20_json_kv_roundtrip); serde_json's string escaping can be undone for every byte string and never produces "
          "a byte below 0x20, so a JSON line is a single line whatever the texts are (C20_json_roundtrip, C20_json_single_line); all "
          "outputs of one record are rendered from one time stamp (C20_one_timestamp). Tied to the code by the correspondence check: "
-         "direct calls of all nine provided format functions (plain, coloured with the default palette, JSON) on generated records and "
+         "direct calls of all nine provided format functions (plain, coloured with the default palette, JSON) on generated records - with and without key-value pairs (numbers and ASCII strings, repeated keys) - and "
          "instants with zone offsets, byte-exact comparison, JSON lines additionally decoded with serde_json and compared field by "
          "field; built loggers with file + additional writer + stderr duplicate, LF/CRLF, Direct/buffered, recursive logging from a "
          "Display implementation (inner records first, once per output that formats the outer record); with the clock advancing on "
          "every read, all outputs of a record must show the same time stamp (oracle on the implementation).")
-THEOREMS = ["C20_frame", "C20_text", "C20_one_timestamp", "C20_json_roundtrip", "C20_json_single_line"]
+THEOREMS = ["C20_frame", "C20_text", "C20_one_timestamp", "C20_json_roundtrip", "C20_json_single_line", "C20_json_kv_roundtrip",
+            "C20_kv_text_roundtrip", "C20_debug_str_inj", "C20_debug_str_printable", "C20_kv_map_sorted", "C20_kv_map_lookup"]
 TRUSTED = ["modelled, not verified: chrono's formatting of %Y-%m-%d %H:%M:%S%.6f %:z, nu_ansi_term's escape sequences for the default "
            "palette, serde_json's field order and escaping (all compared byte for byte); the thread name is an input"]
 ASSUMPTIONS = ["default palette", "key-value pairs are not generated (kv feature enabled, no pairs)",
@@ -39,12 +43,30 @@ def ohx(s):
     return "~" if s is None else hx(s)
 
 
+KV_KEYS = ["a", "b", "key", "a", "é", "k 1", ""]
+KV_STRS = ["foo", "", 'q"uo\\te', "tab\there", "nl\n", "\x01\x7f", "sp ace", "{brace}", "\x00"]
+
+
+def gen_kv(rng):
+    """key-value pairs: "~" for none, else k=iN / k=sHEX separated by ';' (keys may repeat; string values are ASCII)"""
+    if rng.random() < 0.5:
+        return "~"
+    out = []
+    for _ in range(rng.randint(1, 4)):
+        k = hx(rng.choice(KV_KEYS))
+        if rng.random() < 0.5:
+            out.append("%s=i%d" % (k, rng.choice([0, 17, 4294967296, 18446744073709551615])))
+        else:
+            out.append("%s=s%s" % (k, hx(rng.choice(KV_STRS))))
+    return ";".join(out)
+
+
 def gen_fmt(rng):
     off = rng.choice([0, 0, 10800, -34200])
-    return "fmt %d %d %d %s %d %d %s %s %s %s %s" % (
+    return "fmt %d %d %d %s %d %d %s %s %s %s %s %s" % (
         rng.choice(INSTANTS) + rng.choice([0, 1, -1]), off, rng.choice([0, 1, 123456, 999999]), rng.choice("dotwj"), rng.randint(0, 1),
         rng.randint(1, 5), ohx(rng.choice(NAMES)), ohx(rng.choice(FILES)), rng.choice(["~", "0", "1", "42", "4294967295"]),
-        ohx(rng.choice(THREADS)), hx(rng.choice(MSGS)))
+        ohx(rng.choice(THREADS)), hx(rng.choice(MSGS)), gen_kv(rng))
 
 
 def gen_frame(rng):
@@ -64,7 +86,8 @@ def corpus():
     out = []
     for k in "dotwj":
         for c in (0, 1):
-            out.append("fmt 1709251198 0 123456 %s %d 1 %s %s 42 ~ %s" % (k, c, hx("my::mod"), hx("src/x.rs"), hx('he said "hi"\n\ttab\\ é \x01')))
+            out.append("fmt 1709251198 0 123456 %s %d 1 %s %s 42 ~ %s ~" % (k, c, hx("my::mod"), hx("src/x.rs"), hx('he said "hi"\n\ttab\\ é \x01')))
+            out.append("fmt 1709251198 0 123456 %s %d 3 %s %s 42 ~ %s %s=i17;%s=s%s;%s=i1" % (k, c, hx("my::mod"), hx("src/x.rs"), hx("msg"), hx("b"), hx("a"), hx('f"o\\o'), hx("b")))
     out.append("frame 1709251198 0 o 0 0 d ; R:3:%s R:1:%s:4:%s:5:%s R:5:%s" % (hx("first"), hx("outer"), hx("in1"), hx("in2"), hx("")))
     out.append("frame 1709251198 0 o 1 1 d ; R:3:%s R:1:%s R:5:%s" % (hx("first"), hx("second"), hx("third")))
     return out
